@@ -81,6 +81,7 @@ LEVEL_NOTE = (
     "host; the theorem states that reading."
 )
 LEVEL_NOTE += (" " + "regexes_as_modelled (Ccp.RxC18): the argparse / getattr defaults of cli_script.py (--word_delimiter \\s+, --regex '.', --delimiter ',', --output raw_text, --syntax ios, --method diff), the literal separators of ipgrep / macgrep and the re.I flag of MACEUISearch.search_all_formats are re-read from /repo's AST on every run and proved equal to what Model/Cli.lean and this harness hard-wire (the regex engine itself is a parameter of the model).")
+LEVEL_NOTE += (" Scan sets as revised: regexes_as_modelled ties the regex-engine calls with the pattern in canonical form (canonical verbose form without the flag, group names and redundant escapes removed, per-value specialisation of a pattern passed to a same-file helper or built from a name that ranges over a constant collection, always-true searches left out), flags, re.sub replacements and the separator arguments of str.split/join/replace/strip; the literal tests (\"lit\" in x, == against string literals and their subscripts, startswith) are informational definitions Gen.rx...Info, no theorem is about them.")
 EXHAUSTIVE = {"quick": False, "thorough": False}
 ASSUMPTIONS = [
     "no word is accepted both by IPv4Obj and by IPv6Obj (checked on every generated word; the theorems that need it take it as hypothesis `Disjoint`)",
